@@ -25,7 +25,7 @@ NORMAL_KINDS = ("n", "T", "F")
 class Node:
     __slots__ = (
         "id", "func", "op", "ast", "stmt", "callee", "awaited", "suspends", "user", "tag", "types",
-        "succ", "pred", "cond", "tok", "kind", "comp", "loops", "awaited_user", "handler_of", "try_id", "inlined", "env", "root", "benv",
+        "succ", "pred", "cond", "tok", "kind", "comp", "loops", "awaited_user", "handler_of", "try_id", "inlined", "env", "root", "benv", "assume",
     )
 
     def __init__(self, nid: int, func: FuncInfo, op: str, node: Optional[ast.AST] = None, stmt: Optional[ast.AST] = None):
@@ -53,6 +53,7 @@ class Node:
         self.inlined: Optional[FuncInfo] = None  # call/await step whose package callee's body is spliced in right after it
         self.root: FuncInfo = func  # the function whose CFG this step belongs to (differs from func inside a spliced body)
         self.benv = None  # at the step that enters a spliced body: the env of that body
+        self.assume = None  # built under return-value specialisation: (function, local) -> (helper frame, its env, the value the helper returned)
         self.env = None  # inside a spliced body: parameter name -> (caller function, argument expression, caller env)
 
     @property
@@ -229,7 +230,28 @@ def bind_args(call: ast.Call, t: FuncInfo, caller: FuncInfo, caller_env):
     for kw in call.keywords:
         if kw.arg is not None and kw.arg in names:
             env[kw.arg] = (caller, kw.value, caller_env)
+    if not any(isinstance(x, ast.Starred) for x in call.args) and not any(kw.arg is None for kw in call.keywords):
+        # a flag parameter the call leaves out has its literal default
+        plain = a.posonlyargs + a.args
+        for p_, d_ in list(zip(plain[len(plain) - len(a.defaults):], a.defaults)) + [(p_, d_) for p_, d_ in zip(a.kwonlyargs, a.kw_defaults) if d_ is not None]:
+            if p_.arg not in env and isinstance(d_, ast.Constant) and (d_.value is None or isinstance(d_.value, bool)):
+                env[p_.arg] = (caller, d_, caller_env)
+    # *args / **kwargs of the helper: the surplus arguments of this call, as a tuple / dictionary display (one per call site)
+    if a.vararg is not None and not any(isinstance(x, ast.Starred) for x in call.args):
+        key = (id(call), "va")
+        if key not in _SURPLUS:
+            _SURPLUS[key] = ast.copy_location(ast.Tuple(elts=list(call.args[len(pos):]), ctx=ast.Load()), call)
+        env[a.vararg.arg] = (caller, _SURPLUS[key], caller_env)
+    if a.kwarg is not None and not any(kw.arg is None for kw in call.keywords):
+        key = (id(call), "kw")
+        if key not in _SURPLUS:
+            extra = [kw for kw in call.keywords if kw.arg not in names]
+            _SURPLUS[key] = ast.copy_location(ast.Dict(keys=[ast.Constant(value=kw.arg) for kw in extra], values=[kw.value for kw in extra]), call)
+        env[a.kwarg.arg] = (caller, _SURPLUS[key], caller_env)
     return env
+
+
+_SURPLUS: Dict[tuple, ast.AST] = {}
 
 
 def load_known_funcs() -> Optional[Set[str]]:
@@ -399,6 +421,7 @@ class Builder:
         self.root_f = f
         self.env = None
         self.inline_stack: List[str] = []
+        self.assume_at: Dict[tuple, tuple] = {}  # (function, local) -> (helper, helper env, returned expression) under the current assumptions
         self.test_subst: Dict[int, ast.AST] = {}  # id(If statement) -> the condition its flag local stands for
         self.assume: Dict[Tuple[str, str], bool] = {}  # (function, local flag) -> truth value known in the statements being built
 
@@ -409,6 +432,8 @@ class Builder:
         n.loops = tuple(self.loop_stack)
         n.env = self.env
         n.root = self.root_f
+        if self.assume_at:
+            n.assume = dict(self.assume_at)
         self.g.nodes.append(n)
         return n
 
@@ -968,6 +993,9 @@ class Builder:
         if isinstance(tst, ast.Compare) and len(tst.ops) == 1 and isinstance(tst.ops[0], (ast.Is, ast.IsNot, ast.Eq, ast.NotEq)) \
                 and isinstance(tst.comparators[0], ast.Constant) and tst.comparators[0].value is None:
             tst = tst.left
+        elif isinstance(tst, ast.Compare) and len(tst.ops) == 1 and isinstance(tst.ops[0], (ast.Is, ast.IsNot)) and isinstance(tst.comparators[0], ast.Name) \
+                and isinstance(tst.left, ast.Name):
+            tst = tst.left  # `flag is _MARKER`
         return tst
 
     def _flag_used(self, name: str, body: List[ast.stmt], calls: bool) -> bool:
@@ -996,9 +1024,30 @@ class Builder:
             elif isinstance(v, ast.Attribute) and isinstance(v.value, ast.Name) and v.value.id == sc.selfname and t.cls is not None \
                     and self.an.prog.lookup(t.cls, v.attr) is not None:
                 out.append((x, "method:" + v.attr, v))
+            elif isinstance(v, ast.Name) and self._is_marker(t, v.id):
+                out.append((x, "marker:" + v.id, v))
             else:
-                return None
+                out.append((x, "other:%d:%d" % (x.lineno, x.col_offset), v))
+        if not any(k_.startswith("marker:") for _x, k_, _v in out) and any(k_.startswith("other:") for _x, k_, _v in out):
+            return None  # (a computed value is told apart only from a marker object)
         return out
+
+    def _is_marker(self, t: FuncInfo, name: str) -> bool:
+        """a module-level name bound exactly once, to a fresh `object()`: equal (identical) to nothing but itself"""
+        sc = self.an.scope(t)
+        if name in sc.params or name in sc.defs:
+            return False
+        m = t.module
+        v = m.assigns.get(name)
+        if not (isinstance(v, ast.Call) and isinstance(v.func, ast.Name) and v.func.id == "object" and not v.args and not v.keywords):
+            return False
+        n = 0
+        for st in ast.walk(m.tree):
+            if isinstance(st, ast.Name) and st.id == name and not isinstance(st.ctx, ast.Load):
+                n += 1
+            elif isinstance(st, (ast.Global, ast.Nonlocal)) and name in st.names:
+                return False
+        return n == 1
 
     def _flag_assign(self, st: ast.stmt, rest: List[ast.stmt]):
         """`flag = [await] helper(...)` (helper spliced in, flag bound once in this function) which a later statement of the
@@ -1041,14 +1090,25 @@ class Builder:
             kind, v = self.assume[(self.f.qual, test.id)]
             if kind == "truth":
                 res = v
-            else:
-                res = bool(v.value) if isinstance(v, ast.Constant) else True
+            elif isinstance(v, ast.Constant):
+                res = bool(v.value)
+            elif kind == "value" and (isinstance(v, ast.Attribute) or isinstance(v, ast.Name)):
+                res = True  # a bound method / a plain object() marker
+        elif isinstance(test, ast.Compare) and len(test.ops) == 1 and isinstance(test.ops[0], (ast.Is, ast.IsNot)) and isinstance(test.left, ast.Name) \
+                and isinstance(test.comparators[0], ast.Name) and (self.f.qual, test.left.id) in self.assume and self._is_marker(self.f, test.comparators[0].id):
+            kind, v = self.assume[(self.f.qual, test.left.id)]
+            if kind in ("value", "other"):
+                # the marker is identical to itself and to nothing else a helper of the package returns
+                same = isinstance(v, ast.Name) and v.id == test.comparators[0].id
+                res = same if isinstance(test.ops[0], ast.Is) else not same
         elif isinstance(test, ast.Compare) and len(test.ops) == 1 and isinstance(test.comparators[0], ast.Constant) and test.comparators[0].value is None \
                 and isinstance(test.left, ast.Name) and (self.f.qual, test.left.id) in self.assume and isinstance(test.ops[0], (ast.Is, ast.IsNot, ast.Eq, ast.NotEq)):
             kind, v = self.assume[(self.f.qual, test.left.id)]
             is_none: Optional[bool] = None
             if kind == "truth":
                 is_none = False if v else None
+            elif kind == "other":
+                is_none = None
             else:
                 is_none = isinstance(v, ast.Constant) and v.value is None
             if is_none is not None:
@@ -1062,7 +1122,22 @@ class Builder:
         the callee is F (the call runs F with the frozen arguments)"""
         e: ast.AST = call.func
         f, sc, env = self.f, self.sc, self.env
+        first = True
         for _ in range(8):
+            if not first and isinstance(e, ast.Attribute) and isinstance(e.value, ast.Name) and e.value.id == sc.selfname \
+                    and f.cls is not None and self.an.prog.lookup(f.cls, e.attr) is not None:
+                # a helper was handed `self.<method>` and calls it: that method, with the helper's surplus arguments spelled out
+                key = (id(call), id(self.env))
+                syn = self.an.partial_syn.get(key)
+                if syn is None:
+                    args2, kws2 = self._expand_surplus(call)
+                    if args2 is None:
+                        return None
+                    syn = ast.copy_location(ast.Call(func=e, args=args2, keywords=kws2), call)
+                    self.an.partial_syn[key] = syn
+                    self.an.partial_frame[key] = (f, env)
+                return sc.callee(syn)
+            first = False
             if isinstance(e, ast.Call) and sc.callee(e).name.rpartition(".")[2] == "partial" and e.args:
                 key = (id(call), id(self.env))  # one stand-in per call site and frame instance
                 syn = self.an.partial_syn.get(key)
@@ -1093,6 +1168,30 @@ class Builder:
                     self.an.partial_frame[key] = (f, env)
                 return sc.callee(syn)
         return None
+
+    def _expand_surplus(self, call: ast.Call):
+        """arguments of `f(*args, **kwargs)` inside a spliced helper with the helper's *args / **kwargs replaced by what the caller
+        passed -> (args, keywords); (None, None) when they are not known"""
+        args2: List[ast.expr] = []
+        for a_ in call.args:
+            if isinstance(a_, ast.Starred) and isinstance(a_.value, ast.Name) and self.env and a_.value.id in self.env \
+                    and isinstance(self.env[a_.value.id][1], ast.Tuple) and self.f.node.args.vararg is not None and self.f.node.args.vararg.arg == a_.value.id:
+                args2 += list(self.env[a_.value.id][1].elts)
+            elif isinstance(a_, ast.Starred):
+                return None, None
+            else:
+                args2.append(a_)
+        kws2: List[ast.keyword] = []
+        for k_ in call.keywords:
+            if k_.arg is None and isinstance(k_.value, ast.Name) and self.env and k_.value.id in self.env and isinstance(self.env[k_.value.id][1], ast.Dict) \
+                    and self.f.node.args.kwarg is not None and self.f.node.args.kwarg.arg == k_.value.id:
+                d_ = self.env[k_.value.id][1]
+                kws2 += [ast.keyword(arg=kk.value, value=vv) for kk, vv in zip(d_.keys, d_.values)]
+            elif k_.arg is None:
+                return None, None
+            else:
+                kws2.append(k_)
+        return args2, kws2
 
     def _assumed_callee(self, call: ast.Call) -> Optional[Callee]:
         """`x(...)` where the statements being built know x to be `self.m` (returned by a spliced helper): the callee is that method"""
@@ -1209,13 +1308,15 @@ class Builder:
                 name, (_neg, aw, call, t), rv = fl
                 key = (self.f.qual, name)
 
-                def cont(assumption) -> Node:
-                    saved = dict(self.assume)
+                def cont(assumption, at=None) -> Node:
+                    saved, saved_at = dict(self.assume), dict(self.assume_at)
                     self.assume[key] = assumption
+                    if at is not None:
+                        self.assume_at[key] = at
                     try:
                         rest_entry = self.stmts(body[i + 1:], k, ctx)
                     finally:
-                        self.assume = saved
+                        self.assume, self.assume_at = saved, saved_at
                     an_ = self.mk("assign", st, st)
                     self.edge(an_, rest_entry)
                     return an_
@@ -1235,7 +1336,7 @@ class Builder:
                             try:
                                 rn = self.mk("inl_ret", call, st)
                                 rn.inlined = t
-                                self.edge(rn, cont(("value", v_)))
+                                self.edge(rn, cont(("other" if k_.startswith("other:") else "value", v_), (frame[0], frame[2], v_)))
                             finally:
                                 self._restore(frame)
                             conts[k_] = rn
@@ -1248,6 +1349,55 @@ class Builder:
         for st in reversed(body):
             k = self.stmt(st, k, ctx)
         return k
+
+    def _const_param(self, name: str) -> Optional[ast.Constant]:
+        """the literal a parameter of the spliced helper being built is bound to at this call site (through further spliced frames)"""
+        f, sc, env = self.f, self.sc, self.env
+        for _ in range(8):
+            if not env or name not in env or name not in sc.params or sc.defs.get(name):
+                return None
+            f, arg, env = env[name]
+            if isinstance(arg, ast.Constant) and (arg.value is None or isinstance(arg.value, bool)):
+                return arg
+            if not isinstance(arg, ast.Name):
+                return None
+            name, sc = arg.id, self.an.scope(f)
+        return None
+
+    def _spec_test(self, e: ast.AST) -> ast.AST:
+        """the test of an `if` in a spliced helper with the flag parameters this call site passes as literals filled in:
+        `must and x in t` reads `x in t` where the caller says must=True and is never true where it says must=False"""
+        if isinstance(e, ast.Name):
+            return self._const_param(e.id) or e
+        if isinstance(e, ast.UnaryOp) and isinstance(e.op, ast.Not):
+            v = self._spec_test(e.operand)
+            if isinstance(v, ast.Constant):
+                return ast.copy_location(ast.Constant(value=not v.value), e)
+            return e if v is e.operand else ast.copy_location(ast.UnaryOp(op=ast.Not(), operand=v), e)
+        if isinstance(e, ast.Compare) and len(e.ops) == 1 and isinstance(e.ops[0], (ast.Is, ast.IsNot)) and isinstance(e.left, ast.Name) \
+                and isinstance(e.comparators[0], ast.Constant) and e.comparators[0].value is None:
+            v = self._const_param(e.left.id)
+            if v is not None:
+                return ast.copy_location(ast.Constant(value=(v.value is None) == isinstance(e.ops[0], ast.Is)), e)
+            return e
+        if isinstance(e, ast.BoolOp):
+            absorbing = isinstance(e.op, ast.Or)  # the truth value that decides the whole
+            vals = [self._spec_test(v) for v in e.values]
+            if all(a is b for a, b in zip(vals, e.values)):
+                return e
+            out: List[ast.AST] = []
+            for v in vals:
+                if isinstance(v, ast.Constant) and (v.value is None or isinstance(v.value, bool)):
+                    if bool(v.value) == absorbing:
+                        if not out:
+                            return ast.copy_location(ast.Constant(value=absorbing), e)
+                        return e  # operands before it are still evaluated: left as written
+                    continue  # neutral operand
+                out.append(v)
+            if not out:
+                return ast.copy_location(ast.Constant(value=not absorbing), e)
+            return out[0] if len(out) == 1 else ast.copy_location(ast.BoolOp(op=e.op, values=out), e)
+        return e
 
     def _const_truth(self, e: ast.AST) -> Optional[bool]:
         if isinstance(e, ast.Constant):
@@ -1388,15 +1538,16 @@ class Builder:
                 b_then, b_else = self.stmts(st.body, k, ctx), self.stmts(st.orelse, k, ctx)
                 return self._inline_threaded(aw, call, t, b_else if neg else b_then, b_then if neg else b_else, ctx, st)
             # `_c = <condition>` right before `if _c:`: the test step reads the condition itself
-            br = self.mk("test", self.test_subst.get(id(st), st.test), st)
-            c = self._const_truth(st.test)
+            test = self._spec_test(st.test) if self.env else st.test
+            br = self.mk("test", self.test_subst.get(id(st), test), st)
+            c = self._const_truth(test)
             if c is None:
-                c = self._assumed(st.test)
+                c = self._assumed(test)
             if c is not False:
                 self.edge(br, self.stmts(st.body, k, ctx), T)
             if c is not True:
                 self.edge(br, self.stmts(st.orelse, k, ctx), F)
-            return self.expr(st.test, br, ctx, st)
+            return self.expr(test, br, ctx, st)
         if isinstance(st, ast.While):
             head = self.mk("loophead", st, st)
             br = self.mk("test", st.test, st)
